@@ -280,6 +280,9 @@ func prepare() error {
 	if err != nil {
 		return err
 	}
+	if err := rewriteFairshareTick(replace); err != nil {
+		return err
+	}
 	sim := filepath.Join(verifDir, "sim")
 	if err := addDir(replace, filepath.Join(sim, "simsync"), filepath.Join(repoDir, "sdk/helper/simsync"), nil); err != nil {
 		return err
@@ -324,4 +327,37 @@ func buildEngine() (string, error) {
 		return "", fmt.Errorf("engine build failed: %v\n%s", err, buf.String())
 	}
 	return out, nil
+}
+
+// rewriteFairshareTick: the fairshare job manager (expiration workers) polls
+// for assignable work with a 50 ms ticker. Under the simulated clock every
+// tick is real CPU work, so a jump of 31 simulated days would cost 53 million
+// wake-ups. In the simulation build the poll interval is 5 simulated seconds
+// (the ticker is only the fallback for "a worker became free"; new work is
+// signalled through a channel). If the literal is not found the file is left
+// alone (long clock jumps then are merely slow).
+func rewriteFairshareTick(replace map[string]string) error {
+	src := filepath.Join(repoDir, "internal/helper/fairshare/jobmanager.go")
+	b, err := os.ReadFile(src)
+	if err != nil {
+		return nil
+	}
+	const lit = "50 * time.Millisecond"
+	if !bytes.Contains(b, []byte(lit)) {
+		return nil
+	}
+	// start from the sync-rewritten copy if there is one
+	if cur, ok := replace[src]; ok {
+		if nb, err := os.ReadFile(cur); err == nil {
+			b = nb
+		}
+	}
+	out := bytes.ReplaceAll(b, []byte(lit), []byte("verifAssignTick"))
+	out = append(out, []byte("\n// verif: poll interval of assignWork in the simulation build (see /verif/ctl/overlay.go)\nvar verifAssignTick = 5 * time.Second\n")...)
+	dst := filepath.Join(buildDir(), "rewritten", "internal/helper/fairshare/jobmanager.go")
+	if err := writeIfChanged(dst, out); err != nil {
+		return err
+	}
+	replace[src] = dst
+	return nil
 }
